@@ -23,6 +23,10 @@ CHECKS = {}  # filled from sim/props/*.py that exist and are listed in ENABLED
 ENABLED = json.load(open(os.path.join(HERE, "bin", "enabled.json")))
 
 TEXT = {
+    "C05": ("exploration",
+            "Seeded exploration over worlds of 1-4 crate roots x 15 fault kinds (syntax damage, recoverable lexer errors behind ignore lists, invalid UTF-8, missing/ambiguous/directory module, errno on open/read, four kinds of bad config, bad --config-path, nonexistent root, injected parser panics) x 7 emit modes, with the fault position enumerated over every file of the victim tree; every faulty run of the real binary is judged over its recorded libc-call history and the before/after snapshot, against a fault-free run of the surviving roots.",
+            "Trusts the interposer's view of the process, that stdout is the result channel (victim diagnostics go to stderr), and the same binary's fault-free run as the reference formatted text.",
+            "deterministic simulation: seeded fault injection (stored-byte corruption, errno, injected panic) over the real binary", "s4 C05"),
     "C20": ("fault_enumeration",
             "Per sampled world every crash point (before the first, after every mutating libc call, four positions inside every write) and every single failing operation (errno per call kind, torn writes, EINTR, short writes) of the real `rustfmt --backup` process is enumerated under the interposer, and the directory left behind is checked against the invariants of the property. Exhaustive per world, sampled over worlds.",
             "Trusts the simfs interposer to see every file-system call of the process (glibc ABI), the operation-granular crash model stated by the property, and the plain files emitter as the source of the reference formatted text.",
